@@ -47,6 +47,16 @@ class Failure(Exception):
   """listed in failure_exceptions"""
 
 
+class BadStr(Exception):
+
+  def __str__(self):
+    raise BadStrStr('str() of the exception raises')
+
+
+class BadStrStr(Exception):
+  pass
+
+
 def shape_callback(fn, j):
   """output callbacks come as plain functions, callable objects (OutputToJSON is one) and functools.partial objects;
   the last two have no __name__"""
@@ -142,12 +152,18 @@ def build_phase(node, ctx, htf, diag_enum, diagnoses_lib, plugs=None):
       else:
         if mo in ('ppass', 'pass'):
           test.measurements[name][0] = 1
+          if pid % 2 == 0:
+            test.measurements[name][0] = 1      # the same coordinate again (allowed, with a warning)
         elif mo in ('pfail', 'fail'):
           test.measurements[name][0] = 2
+          if pid % 2 == 0:
+            test.measurements[name][0] = 2
         elif mo == 'praise':
           test.measurements[name][0] = 3
     raw = inv['raw']
     if raw == 'exc':
+      if inv.get('badstr'):
+        raise BadStr()      # an exception whose str() raises: rendering the phase record crashes the executor thread
       raise RuntimeError('phase %d failed' % pid)
     if raw == 'fexc':
       raise Failure('phase %d failed (failure exception)' % pid)
